@@ -29,6 +29,7 @@ func runC13(c *fw.Ctx) {
 	r132(c)
 	r133(c)
 	r134(c)
+	r95as(c, "R13.5")
 }
 
 // typeImplementers: concrete named types T in go/types with *T implementing types.Type.
